@@ -81,7 +81,9 @@ type Case struct {
 	RevMods []RevMod `json:"revision_modules,omitempty"`
 	SubRevs []string `json:"submodule_revisions,omitempty"` // "" = a text without revision
 	Nested  bool     `json:"nested,omitempty"`              // sub includes sub2, which the modules include too
-	Deep    bool     `json:"deep,omitempty"`                // with Nested: sub2 includes sub3, which the modules include too
+	// UndatedImp (revsub): a module named before rm imports rm without revision-date
+	UndatedImp bool `json:"undated_importer,omitempty"`
+	Deep       bool `json:"deep,omitempty"` // with Nested: sub2 includes sub3, which the modules include too
 	// mixed: revisions of lib partly loaded, partly waiting in a search-path directory, importers of both kinds
 	Loaded   []string   `json:"loaded_revisions,omitempty"`  // "" = a text without revision statement
 	OnDisk   []string   `json:"revisions_on_disk,omitempty"` // lib@DATE.yang files
@@ -682,6 +684,11 @@ func (c Case) revsubTexts() []ymodel.Source {
 		// an importer of exactly this revision that names the typedef the submodule holds
 		out = append(out, ymodel.Source{Name: fmt.Sprintf("imp%d.yang", i), Text: fmt.Sprintf("module imp%d {\n namespace \"urn:imp%d\";\n prefix q;\n import rm { prefix r; revision-date %s; }\n leaf l { type r:subt; }\n}\n", i, i, m.Rev)})
 	}
+	if c.UndatedImp {
+		// a module whose name sorts before rm and that imports rm without a revision-date (the latest revision):
+		// whoever binds imports and includes by walking the modules in order meets the latest revision first
+		out = append(out, ymodel.Source{Name: "aimp.yang", Text: "module aimp {\n namespace \"urn:aimp\";\n prefix q;\n import rm { prefix r; }\n leaf l { type r:subt; }\n container c { leaf x { type string; } }\n}\n"})
+	}
 	for j, d := range c.SubRevs {
 		rev, name, inc := "", "sub.yang", ""
 		if d != "" {
@@ -925,6 +932,7 @@ func checkRevSub(c Case, o *ev.Outcome) {
 
 func genRevSub(t *rapid.T) Case {
 	c := Case{Kind: "revsub", Nested: rapid.IntRange(0, 2).Draw(t, "nested") == 0}
+	c.UndatedImp = rapid.Bool().Draw(t, "undated-importer-named-before-the-module")
 	c.Deep = c.Nested && rapid.Bool().Draw(t, "deep")
 	subDates := []string{"", "2019-05-05", "2021-12-31"}
 	k := rapid.IntRange(1, 2).Draw(t, "submodule-texts")
